@@ -78,4 +78,21 @@ def handleC12 (f : List String) : Res :=
     | _, _, _, _, _, _ => bad "c12-parse"
   | _ => bad "c12-arity"
 
+/-- `c12n <k> <L> <names> <results-equal> <outcome>`: un-instrumented algorithms whose names collide.
+    Model: slot `i` holds the result of algorithm `i` whatever the names (`C12_return`), so the answer
+    is "equal". -/
+def handleC12n (f : List String) : Res :=
+  match f with
+  | [ks, Ls, _names, req, outcome] =>
+    match pNat ks, pNat Ls with
+    | some k, some L =>
+      let r : Res := {}
+      let r := cmp "results" "1" req r
+      let r := cmp "outcome" "ok" outcome r
+      let r := specIf "returns" (outcome == "ok") r
+      let r := specIf "results-equal-sequential" (req == "1") r
+      { r with nt := k ≥ 2, tag := s!"names,k={k},L={L}" }
+    | _, _ => bad "c12n-parse"
+  | _ => bad "c12n-arity"
+
 end AC.Drv
